@@ -8,10 +8,17 @@ from . import interop as IO
 import random, shutil, time
 
 
-def worker_families(res, quick, thorough):
+RANDOM_QUICK = [("small", 250)]
+RANDOM_THOROUGH = [("small", 4000), ("bigblk", 60), ("bigw", 16), ("wrap", 16)]
+
+
+def worker_families(res, quick, thorough, random_legs=True):
     fams = quick if res.tier == "quick" else thorough
     for f in fams:
         W.run_family(res, f)
+    if random_legs:
+        for profile, count in (RANDOM_QUICK if res.tier == "quick" else RANDOM_THOROUGH):
+            W.run_random(res, profile, count)
     res.assumptions += [
         "worker driven through the public Socket trait by a simulated socket; virtual clock via hook H2",
         "TLC-generated scripts cover every input transition of the bounded open model; beyond the bounds only sampled",
@@ -43,7 +50,7 @@ def c08(res):
 
 
 def c13(res):
-    worker_families(res, ["MC_RecvCoreQuick", "MC_RecvDevfull"], ["MC_RecvCoreFull", "MC_RecvDevfull"])
+    worker_families(res, ["MC_RecvCoreQuick", "MC_RecvDevfull"], ["MC_RecvCoreFull", "MC_RecvDevfull"], random_legs=False)
     c13_second_clause(res)
 
 
@@ -51,12 +58,14 @@ def c15(res):
     W.model_check(res, "MC_SendWrapSmall")
     W.model_check(res, "MC_RecvWrapSmall")
     worker_families(res, ["MC_SendWrapReal", "MC_RecvWrapReal"],
-                    ["MC_SendWrapRealDeep", "MC_RecvWrapRealDeep", "MC_SendBigWFull"])
+                    ["MC_SendWrapRealDeep", "MC_RecvWrapRealDeep", "MC_SendBigWFull"], random_legs=False)
+    for profile, count in ([("wrapq", 1)] if res.tier == "quick" else [("wrap", 24), ("bigw", 16)]):
+        W.run_random(res, profile, count)
 
 
 def c16(res):
     W.model_check(res, "MC_ClosedDup", module="MC_TransferClosed")
-    worker_families(res, ["MC_SendDup", "MC_RecvDup"], ["MC_SendDup", "MC_RecvDup"])
+    worker_families(res, ["MC_SendDup", "MC_RecvDup"], ["MC_SendDup", "MC_RecvDup"], random_legs=False)
 
 
 def short_prefix_vectors(v):
